@@ -51,7 +51,7 @@ check(
 check(
     "C02",
     "other",
-    "bounded symbolic verification of the freshness-decision kernels: build.validate_meta is executed on a duck-typed manager with symbolic stat results, real-valued clocks, opaque hashes and every flag combination; obligation: a returned meta implies the source content is unchanged (modulo the documented escapes bazel / fine-grained cache load / quickstart) and the data file mtime tie holds; further freshness kernels (is_fresh, find_stale_sccs, ...) appear as sections in the evidence when built. Counterexamples are replayed as warm-vs-cold runs of the real mypy command under three store/format configurations.",
+    "bounded symbolic verification of the freshness-decision kernels: build.validate_meta is executed on a duck-typed manager with symbolic stat results, real-valued clocks, opaque hashes and every flag combination; obligation: a returned meta implies the source content is unchanged (modulo the documented escapes bazel / fine-grained cache load / quickstart) and the data file mtime tie holds; State.is_fresh under an options proxy with symbolic flags (fresh implies meta, unchanged dependency list and unchanged suppressed-dependency import options outside daemon mode); find_stale_sccs with verify_transitive_deps/is_transitive_scc_dep on three SCCs with symbolic member freshness, dependency-hash currency, transitive-hash equality and indirect reachability (oracle: its docstring); is_transitive_scc_dep = graph reachability over every DAG and query sequence with its cache carried over; exist_removed_submodules against its specification. Counterexamples are replayed as warm-vs-cold runs of the real mypy command under three store/format configurations.",
     "trusted: z3; contract 'a content change changes size or real-valued mtime'; hash injective; that trusted cache contents reproduce cold diagnostics is outside (C11 / whole-program). Known finding: same-second same-size edit.",
     "symbolic execution of real Python source with z3 (decision-replay), replay warm vs cold",
     "DESIGN.md 4/C02",
@@ -107,7 +107,7 @@ check(
 check(
     "C09",
     "other",
-    "bounded symbolic verification of the two hinges of option/cache consistency: (K1) replay-path equivalence - the real Errors.file_messages/sort/remove_duplicates/render_messages/simplify_path/format_messages_default run under an Options proxy whose every attribute read is a fresh symbolic value per run, keyed options (OPTIONS_AFFECTING_CACHE, re-read from the source) equal in both runs; what a warm run replays (rendered under the old options, formatted under the new) must equal what a cold run prints; (K2) two symbolic option vectors differing on any keyed bool option have different snapshots. Completeness of the key with respect to options read inside the semantic analyser/checker is NOT claimed (whole-program).",
+    "bounded symbolic verification of the two hinges of option/cache consistency: (K1) replay-path equivalence - the real Errors.file_messages/sort/remove_duplicates/render_messages/simplify_path/format_messages_default run under an Options proxy whose every attribute read is a fresh symbolic value per run, keyed options (OPTIONS_AFFECTING_CACHE, re-read from the source) equal in both runs; what a warm run replays (rendered under the old options, formatted under the new) must equal what a cold run prints; (K2) two symbolic option vectors differing on any keyed bool option have different snapshots; (K2b) the same for every keyed list/set/string option with symbolic elements - plugins compared as an ordered list, other collections as sets. Completeness of the key with respect to options read inside the semantic analyser/checker is NOT claimed (whole-program).",
     "trusted: z3; snapshot hash injective; same working directory in both runs; non-bool options at defaults in K1",
     "symbolic execution of real Python source with z3 (decision-replay) under a recording options proxy; replay = two real runs sharing a cache vs a cold run",
     "DESIGN.md 4/C09",
@@ -144,8 +144,8 @@ check(
 check(
     "C07",
     "other",
-    "bounded symbolic verification of the coordinator's scheduling kernel: the scheduling loop extracted from build.process_graph and the real BuildManager.submit/submit_to_workers/get_scc_batch/max_batch_size/wait_for_done/wait_for_done_workers run on a shell manager with stubbed transport; the solver chooses the SCC DAG (3/4 SCCs), the size hints, the number of workers (1..3) and, at every wait, which busy workers' responses arrive. For every schedule: an SCC is sent only after its dependencies reported interface-done, every SCC is sent exactly once, a worker gets a batch only after its implementation response, the loop terminates with everything done, bookkeeping stays in range. Equality of diagnostics with the sequential build is not claimed (needs real workers).",
-    "trusted: z3; stubs for send/ready_to_read/receive/response decoding/find_stale_sccs; workers answer each batch with one interface and one implementation response",
+    "bounded symbolic verification of the coordinator's scheduling kernel: the scheduling loop extracted from build.process_graph and the real BuildManager.submit/submit_to_workers/get_scc_batch/max_batch_size/wait_for_done/wait_for_done_workers run on a shell manager with stubbed transport; the solver chooses the SCC DAG (3/4 SCCs), the size hints, the number of workers (1..3) and, at every wait, which busy workers' responses arrive, and for every ready wave which SCCs find_stale_sccs reports fresh (mixed fresh/stale waves). For every schedule: an SCC is sent only after its dependencies reported interface-done, every SCC is sent exactly once, a worker gets a batch only after its implementation response, the loop terminates with everything done, bookkeeping stays in range. Equality of diagnostics with the sequential build is not claimed (needs real workers).",
+    "trusted: z3; stubs for send/ready_to_read/receive/response decoding; find_stale_sccs replaced by a solver-chosen split; workers answer each batch with one interface and one implementation response",
     "symbolic execution of real Python source with z3 (decision-replay) over all completion orders within the bound, partitioned over processes",
     "DESIGN.md 4/C07",
 )
@@ -153,7 +153,7 @@ check(
 check(
     "C10",
     "other",
-    "bounded symbolic verification that the ordering kernels do not depend on set iteration order: graph_utils.strongly_connected_components/prepare_sccs/topsort and build.sorted_components_inner/order_ascc/deps_filtered/transitive_dep_hash are executed from a source rewrite in which every set/frozenset (constructor calls, displays, comprehensions) iterates in an order given by solver-chosen ranks (a hash-seed model); graphs over 3 modules (every edge absent/direct/indirect) and State.order permutations are solver-chosen too; the SCC sequence, the order inside SCCs and the token stream fed to the transitive-dependency hash must equal the canonical ones. Narrow: whole-run hash-seed independence and independence from earlier builds in the same process are not encodable and not claimed.",
+    "bounded symbolic verification that the ordering kernels do not depend on set iteration order: graph_utils.strongly_connected_components/prepare_sccs/topsort and build.sorted_components_inner/order_ascc/deps_filtered/transitive_dep_hash are executed from a source rewrite in which every set/frozenset (constructor calls, displays, comprehensions) iterates in an order given by solver-chosen ranks (a hash-seed model); graphs over 3 modules (every edge absent/direct/indirect) and State.order permutations are solver-chosen too; the SCC sequence, the order inside SCCs and the token stream fed to the transitive-dependency hash must equal the canonical ones; the real find_stale_sccs/order_ascc_ex on the fully fresh graph with solver-chosen 'module has cached diagnostics' flags must flush cached diagnostics in the canonical order. Narrow: whole-run hash-seed independence and independence from earlier builds in the same process are not encodable and not claimed.",
     "trusted: z3; set iteration modelled as a per-run total order on elements; typed token buffer instead of WriteBuffer for the hash input",
     "symbolic execution of a source rewrite of the real code with solver-chosen set iteration orders; replay under 48 PYTHONHASHSEEDs",
     "DESIGN.md 4/C10",
@@ -162,8 +162,8 @@ check(
 check(
     "C06",
     "other",
-    "ownership bounded model checking of the final mypyc IR: for every function of the mypyc test-data programs that build with the IR fixture (quick: 13 files, ~1100 functions; thorough: all irbuild/run/lowering/opt files), the FuncIR produced by the real compile_scc_to_ir pipeline is encoded in passive form over its CFG with loops peeled twice (per value: owned-reference count and error flag, ITE-merged; IS_ERROR branches tied to error flags; all other branch outcomes and op error flags free) and z3 discharges, per return and per decrement, that every value is released exactly once on every path incl. every exceptional exit and never over-released. Static half only.",
-    "trusted: z3; op ownership metadata (stolen/is_borrowed/error_kind/is_xdec) and its faithful emission as C; three stated modelling rules (error value transfers nothing, unborrow hands over the aggregate, slot release before set_mem); loops peeled twice; dynamic leak observation, use-after-release of borrowed values and always-defined attributes outside",
+    "ownership bounded model checking of the final mypyc IR: for every function of the mypyc test-data programs that build with the IR fixture (quick: 13 files, ~1100 functions; thorough: all irbuild/run/lowering/opt files) and of a generated corpus of ownership-relevant program shapes (displays, one-branch definitions, loops, try/finally, tuples), the FuncIR produced by the real compile_scc_to_ir pipeline is encoded in passive form over its CFG with loops peeled twice (per value: owned-reference count and error flag, ITE-merged; IS_ERROR branches tied to error flags; all other branch outcomes and op error flags free) and z3 discharges, per return and per decrement, that every value is released exactly once on every path incl. every exceptional exit and never over-released. Static half only.",
+    "trusted: z3; op ownership metadata (stolen/is_borrowed/error_kind/is_xdec) and its faithful emission as C; stated modelling rules (error value transfers nothing, unborrow hands over the aggregate, slot release before set_mem, out-parameter registers, dropped branch targets); loops peeled twice; dynamic leak observation, use-after-release of borrowed values and always-defined attributes outside",
     "bounded model checking of compiler IR with z3 (passive form, all paths and error flags)",
     "DESIGN.md 4/C06",
     engine="mypycir",
